@@ -580,6 +580,8 @@ impl World {
             if f.kind == c as u8 && f.k == cell.get() {
                 self.fault.set(None);
                 self.fault_fired.set(self.fault_fired.get() + 1);
+                // while the panic is unwinding every existing object may be affected; the mark is set again when it is caught
+                self.fault_obj_mark.set(u32::MAX);
                 bump(&self.stats.faults_fired);
                 if self.in_collection.get() {
                     bump(&self.stats.fault_unwound_collector);
